@@ -1,8 +1,10 @@
 """C20 — coordinate conversions and pole-figure primitives are geometrically correct.
 
 Proved (contracts on the real code): Cartesian -> spherical -> Cartesian round trip and the angle convention (A-TRIG),
-pole extraction for all six reference-axes strings.  lambert_equal_area and point_density use numpy.ma / data-dependent
-filtering that the symbolic executor does not model: bounded stand-in only, and the check claims level `other`.
+pole extraction for all six reference-axes strings, and the Lambert projection of generic unit vectors with numpy.ma under
+contract (A-NUMPY-MA: masked_where, mask propagation, domain masking, filled): squared radius 1 - |z|, closed unit disk,
+azimuth, inverse lifting, the guarded poles.  point_density (kernels, mgrid, data-dependent clipping) is a bounded stand-in
+only, and the check claims level `other`.
 """
 import itertools
 
@@ -23,7 +25,8 @@ MOD = "pydrex.geometry"
 def run(run):
     run.assume("S-REAL", "S-PY", "S-NUMPY", "A-TRIG")
     run.level_override = "other"
-    run.fork_map(_section, [("sph",)] + [("poles", ra) for ra in ("xy", "xz", "yx", "yz", "zx", "zy", "XZ")])
+    run.assume("A-NUMPY-MA")
+    run.fork_map(_section, [("sph",), ("lambert",)] + [("poles", ra) for ra in ("xy", "xz", "yx", "yz", "zx", "zy", "XZ")])
     bounded(run)
 
 
@@ -31,6 +34,8 @@ def _section(run, item):
     try:
         if item[0] == "sph":
             spherical_facets(run)
+        elif item[0] == "lambert":
+            lambert_facets(run)
         else:
             poles_facets(run, [item[1]])
     except E.UNSUPPORTED_EXC as e:
@@ -80,6 +85,186 @@ def spherical_facets(run):
     run.prove("to_cartesian == (r sin(theta) cos(phi), r sin(theta) sin(phi), r cos(theta))", f"{MOD}.to_cartesian", list(c.hyps), z3.And(*[S.zz(a[0]) == b for a, b in zip((X, Y, Z), want)]), structural=True)
     run.canary("to_spherical/canary", fn, Hr, S.zz(xc[0]) == x.z + 1)
     E.Ctx.cur = None
+
+
+# ----------------------------------------------------------------------------- Lambert projection (numpy.ma under contract)
+class _MA:
+    """numpy.ma model (A-NUMPY-MA), element-wise with decided masks: masked_where(c, a); arithmetic propagates the union of the
+    masks; a / 0 and sqrt(negative) are masked (domain); filled() puts fill_value at masked places.  A masked element's data
+    is never computed (so no division obligation arises there)."""
+
+    __array_ufunc__ = None  # numpy defers binary operators to the reflected methods below
+    __array_priority__ = 1000
+
+    def __init__(s, vals, mask):
+        s.vals, s.mask, s.fill_value = list(vals), list(mask), None
+
+    @staticmethod
+    def _lift(o, n):
+        if isinstance(o, _MA):
+            return o.vals, o.mask
+        a = np.asarray(o, dtype=object)
+        vals = list(a.flat) if a.ndim else [o] * n
+        if len(vals) == 1 and n > 1:
+            vals = vals * n
+        return vals, [False] * n
+
+    def _bin(s, o, f, swap=False, div=False):
+        ov, om = _MA._lift(o, len(s.vals))
+        vals, mask = [], []
+        for a, ma_, b, mb in zip(s.vals, s.mask, ov, om):
+            if swap:
+                a, b = b, a
+            m = bool(ma_ or mb)
+            if not m and div and bool(S.ctx().decide(S.zz(b) == 0)):
+                m = True  # domain: division by zero is masked
+            mask.append(m)
+            vals.append(None if m else f(a, b))
+        return _MA(vals, mask)
+
+    def __add__(s, o):
+        return s._bin(o, lambda a, b: a + b)
+
+    __radd__ = __add__
+
+    def __sub__(s, o):
+        return s._bin(o, lambda a, b: a - b)
+
+    def __rsub__(s, o):
+        return s._bin(o, lambda a, b: a - b, swap=True)
+
+    def __mul__(s, o):
+        return s._bin(o, lambda a, b: a * b)
+
+    __rmul__ = __mul__
+
+    def __truediv__(s, o):
+        return s._bin(o, lambda a, b: a / b, div=True)
+
+    def __rtruediv__(s, o):
+        return s._bin(o, lambda a, b: a / b, swap=True, div=True)
+
+    def __pow__(s, k):
+        if k != 2:
+            raise E.Unsupported("masked power other than 2")
+        return _MA([None if m else v * v for v, m in zip(s.vals, s.mask)], s.mask)
+
+    def sqrt(s):
+        vals, mask = [], []
+        for v, m in zip(s.vals, s.mask):
+            if not m and bool(S.ctx().decide(S.zz(v) < 0)):
+                m = True  # domain: sqrt of a negative number is masked
+            mask.append(m)
+            vals.append(None if m else S.s_sqrt(v))
+        return _MA(vals, mask)
+
+    def filled(s, fill_value=None):
+        fv = s.fill_value if fill_value is None else fill_value
+        out = np.empty(len(s.vals), dtype=object)
+        for i, (v, m) in enumerate(zip(s.vals, s.mask)):
+            out[i] = fv if m else v
+        return out.view(S.SymArray)
+
+
+def lambert_facets(run, n=2):
+    """The real lambert_equal_area on n generic unit vectors, numpy.ma under contract: squared radius 1 - |z|, closed unit
+    disk, azimuth unchanged (same direction in the plane), inverse of the disk-to-sphere lifting, element-wise independence;
+    the x = y = 0 guard maps to the centre, where 1 - |z| <= 2e-32."""
+    GM = real_module(MOD)
+    fn = f"{MOD}.lambert_equal_area"
+    P = [symarr(f"p{k}", (3,)) for k in range(n)]
+    hy = [S.zz(p[0]) * S.zz(p[0]) + S.zz(p[1]) * S.zz(p[1]) + S.zz(p[2]) * S.zz(p[2]) == 1 for p in P]
+
+    class MAStub:
+        @staticmethod
+        def masked_where(cond, a, copy=True):
+            cs = list(np.asarray(cond, dtype=object).flat)
+            vs = list(np.asarray(a, dtype=object).flat)
+            return _MA(vs, [bool(S.ctx().decide(S.B(c))) for c in cs])
+
+    class Shim(S.NPShim):
+        def sqrt(self, x):
+            if isinstance(x, _MA):
+                return x.sqrt()
+            return super().sqrt(x)
+
+    def body():
+        g = E.rebind_module(GM, np_shim=Shim(extra={"ma": MAStub}))
+        cols = [np.array([P[k][i] for k in range(n)], dtype=object).view(S.SymArray) for i in range(3)]
+        return g["lambert_equal_area"](*cols)
+
+    ex = E.explore(body, hyps=hy, max_paths=64)
+    run.paths += len(ex.paths)
+    if not ex.complete or not ex.paths or ex.unsupported:
+        run.undecided("lambert_equal_area", fn, "exploration incomplete: " + "; ".join(ex.unsupported[:2]))
+        return
+    seen = set()
+    for pi, p in enumerate(ex.paths):
+        H = list(ex.ctx.hyps) + list(p.pc)
+        tag = f"lambert/path{pi}"
+        if p.exc is not None:
+            run.prove(f"{tag}/no exception for unit vectors", fn, H, z3.BoolVal(False), replay=_rp_lambert(P), detail=f"{type(p.exc).__name__}: {p.exc}")
+            continue
+        X, Y = (np.asarray(v, dtype=object) for v in p.value)
+        if X.shape != (n,) or Y.shape != (n,):
+            run.exact(f"{tag}/shape", fn, False, f"{X.shape} {Y.shape}")
+            continue
+        for k_, o in enumerate(p.oblig):
+            run.prove(f"{tag}/safety.{o.name}#{k_}", fn, list(ex.ctx.hyps) + list(o.pc), o.goal, replay=_rp_lambert(P), kind="safety")
+        for k in range(n):
+            x, y, z = (S.zz(v) for v in P[k])
+            Xk, Yk = S.zz(X[k]), S.zz(Y[k])
+            absz = z3.If(z >= 0, z, -z)
+            centre = z3.is_rational_value(z3.simplify(Xk)) and z3.is_rational_value(z3.simplify(Yk))
+            rp = _rp_lambert(P)
+            if centre:
+                seen.add("centre")
+                run.prove(f"{tag}/point{k}: the guarded pole maps to the centre and its squared radius 1 - |z| is below 2e-32", fn, H, z3.And(Xk == 0, Yk == 0, 1 - absz >= 0, 1 - absz <= S.R(2e-32)), replay=rp)
+                continue
+            seen.add("regular")
+            r2 = Xk * Xk + Yk * Yk
+            run.prove(f"{tag}/point{k}: squared radius == 1 - |z| (so the image lies in the closed unit disk)", fn, H, z3.And(E.clear_formula(r2 == 1 - absz), 1 - absz <= 1, 1 - absz >= 0), replay=rp)
+            run.prove(f"{tag}/point{k}: azimuth unchanged (X y == Y x, X x >= 0, Y y >= 0)", fn, H, E.clear_formula(z3.And(Xk * y == Yk * x, Xk * x >= 0, Yk * y >= 0)), replay=rp)
+            zl = 1 - r2
+            run.prove(f"{tag}/point{k}: inverse of the disk-to-sphere lifting (1 - r^2 == |z|, X^2 (1 - z_l^2) == x^2 r^2, likewise Y)", fn, H,
+                      E.clear_formula(z3.And(zl == absz, Xk * Xk * (1 - zl * zl) == x * x * r2, Yk * Yk * (1 - zl * zl) == y * y * r2)), replay=rp)
+            others = {str(v) for q in range(n) if q != k for v in (S.zz(w) for w in P[q])}
+            from contracts.updfacets import consts_of
+
+            used = consts_of(Xk) | consts_of(Yk)
+            run.exact(f"{tag}/point{k}: the image depends on that point only", fn, not (used & others), f"symbols of other points in the image: {sorted(used & others)}")
+    run.exact("lambert: both the regular branch and the guarded-pole branch were explored", fn, seen == {"centre", "regular"}, f"{sorted(seen)} on {len(ex.paths)} paths")
+    E.Ctx.cur = None
+
+
+def _rp_lambert(P):
+    def replay(model):
+        pts = [[E.model_value(model, S.zz(v)) for v in p] for p in P]
+        res = native.call("contracts.C20", "nat_lambert", dict(pts=pts))
+        return (not res["ok"]), dict(checker="contracts.C20:nat_lambert", inputs=dict(pts=pts), observed=res, what=res.get("what", ""))
+
+    return replay
+
+
+def nat_lambert(pts):
+    import pydrex.geometry as g
+
+    v = np.array(pts, float)
+    nrm = np.linalg.norm(v, axis=1)
+    v = v / np.where(nrm > 0, nrm, 1)[:, None]
+    try:
+        X, Y = g.lambert_equal_area(v[:, 0], v[:, 1], v[:, 2])
+    except Exception as e:
+        return dict(ok=False, what=f"raised {type(e).__name__}: {e}")
+    r2 = X ** 2 + Y ** 2
+    msgs = []
+    if not (np.all(np.isfinite(X)) and np.all(np.isfinite(Y))):
+        msgs.append("not finite")
+    elif not np.allclose(r2, 1 - np.abs(v[:, 2]), atol=1e-12):
+        msgs.append(f"squared radius {r2.tolist()} != 1 - |z| {(1 - np.abs(v[:, 2])).tolist()}")
+    elif np.abs(X * v[:, 1] - Y * v[:, 0]).max() > 1e-12 or (X * v[:, 0]).min() < -1e-15 or (Y * v[:, 1]).min() < -1e-15:
+        msgs.append("azimuth changed")
+    return dict(ok=not msgs, what="; ".join(msgs), X=np.asarray(X).tolist(), Y=np.asarray(Y).tolist())
 
 
 def _rp_sph(x, y, z):
